@@ -429,6 +429,11 @@ def infeasible_reason(p):
             tv = const_truth(f[1])
             if tv is not None and tv != f[2]:
                 return 'fold: [%s] is constantly %s' % (P(f[1])[:120], tv)
+    # x < x is never true, x == x never false (any terms)
+    for f, site, _ in facts:
+        if f[0] == 'val' and isinstance(f[2], bool) and isinstance(f[1], tuple) and len(f[1]) == 3 and f[1][1] == f[1][2]:
+            if (f[1][0] == 'lt' and f[2] is True) or (f[1][0] == 'eq' and f[2] is False):
+                return 'fold: [%s] is constantly %s' % (P(f[1])[:120], not f[2])
     # a - a never underflows: checked_sub(x, y) failing while x - y folds to a non-negative constant
     for f, site, _ in facts:
         if f[0] == 'is' and f[2] in ('Err', 'None') and f[1][0] == 'rcall' and f[1][1] == 'checked_sub':
